@@ -27,7 +27,7 @@ CW="$(mktemp -d /tmp/tryseed.XXXXXX)"; rmdir "$CW"
 git -C /repo worktree add -q --detach "$CW" HEAD || exit 2
 git -C "$CW" apply "$OUT/patch.diff" || { echo "patch does not apply to /repo HEAD"; git -C /repo worktree remove --force "$CW"; exit 2; }
 for id in "$@"; do
-  cd /verif && VERIF_REPO="$CW" ./run.sh $id quick > "$OUT/check-$id.log" 2>&1; rc=$?
+  cd /verif && VERIF_NO_SEED_REGRESS=1 VERIF_REPO="$CW" ./run.sh $id quick > "$OUT/check-$id.log" 2>&1; rc=$?
   echo "check $id: exit $rc :: $(grep -m1 '^violation:' "$OUT/check-$id.log" | cut -c1-260)"
   RES="$RES $id=$rc"
 done
